@@ -1,0 +1,55 @@
+//go:build verif
+
+// Contracts for the rosvc verification-condition generator (/verif). This file is comments only: it is compiled
+// only under the build tag `verif` and contains no declarations, so it cannot change the behaviour of the package.
+// Syntax: see /verif/DESIGN.md section 2.5.
+
+package rosmar
+
+//@ fn (*HybridLogicalClock).Now
+//@   requires c.highestTime < 18446744073709551615
+//@   ensures [C04:hlc.now.increasing] result > old(c.highestTime)
+//@   ensures [C04:hlc.now.recorded]   c.highestTime == result
+//@   ensures [C04:hlc.now.physical]   result >= clockdraw[0] - clockdraw[0] % 65536
+//@   ensures [C04:hlc.now.unlocked]   nolocks()
+//@   mustfail [C04:stalled] result == clockdraw[0] - clockdraw[0] % 65536
+//@
+//@ fn (*HybridLogicalClock).updateLatestTime
+//@   ensures [C04:hlc.update.max] c.highestTime == max(old(c.highestTime), lastTime)
+//@   ensures [C04:hlc.update.unlocked] nolocks()
+//@
+//@ spec DocInv(r) = !r.present || ((r.tombstone == 1 <==> isnull(r.value)) && (r.tombstone == 0 || r.tombstone == 1) && r.rev >= 1 && r.cas >= 0 && r.exp >= 0 && r.exp <= 4294967295 && r.rev < 9223372036854775807)
+//@ spec hasBody(r) = r.present && !isnull(r.value)
+//@ spec nextrev(r) = if r.present then r.rev + 1 else 1
+//@
+//@ fn (*Collection).getRaw
+//@   variant tx q=tx
+//@   variant pool q=pool
+//@   let r = old(doc(c.id, key))
+//@   requires DocInv(r)
+//@   ensures [C01:getRaw.live]    hasBody(r) && err == nil ==> val == r.value && cas == r.cas && revSeqNo == r.rev
+//@   ensures [C01:getRaw.missing] !hasBody(r) ==> err != nil && (ismissing(err) || isdberr(err))
+//@   ensures [C01:getRaw.nomiss]  hasBody(r) ==> !ismissing(err)
+//@   ensures [C01:getRaw.frame]   db == old(db)
+//@   mustfail [C01:getRaw.found]  err != nil
+//@
+//@ fn (*Collection).add
+//@   let r = old(doc(c.id, key))
+//@   let r2 = doc(c.id, key)
+//@   requires DocInv(r)
+//@   requires !isnull(val)
+//@   ensures [C06:add.refuse] err == nil && hasBody(r) ==> !added && docs == old(docs)
+//@   ensures [C06:add.create] err == nil && !hasBody(r) ==> added && hasBody(r2) && r2.value == val && r2.cas == newCas
+//@   ensures [C05:add.docinv] DocInv(r2)
+//@   ensures [C01:add.error]  err != nil ==> db == old(db)
+//@   ensures [C17:add.rev]    err == nil && added ==> r2.rev == nextrev(r)
+//@   mustfail [C06:add.mf]    added
+//@
+//@ fn (*Collection).set
+//@   let r = old(doc(c.id, key))
+//@   let r2 = doc(c.id, key)
+//@   requires DocInv(r)
+//@   ensures [C05:set.docinv] DocInv(r2)
+//@   ensures [C01:set.error]  err != nil ==> db == old(db)
+//@   ensures [C01:set.stored] err == nil ==> r2.present && r2.value == val && r2.cas == newCas
+//@   ensures [C17:set.rev]    err == nil ==> r2.rev == nextrev(r)
